@@ -168,6 +168,21 @@ func init() {
 		}
 		return OkV(bundleSx(b))
 	})
+	// WriteTo / HeaderSha256 must leave the bundle they are given as it was
+	regOp("bundle_write_keeps_input", func(a []Sx) (res Sx) {
+		defer func() {
+			if r := recover(); r != nil {
+				res = L(Sym("panic"))
+			}
+		}()
+		b := bundleOf(a[0])
+		var buf bytes.Buffer
+		_, err := b.WriteTo(&buf)
+		for _, e := range b.Exchanges {
+			e.Response.HeaderSha256()
+		}
+		return L(bytesR(buf.Bytes(), err), bundleSx(b))
+	})
 	regOp("bundle_read_edit", func(a []Sx) (res Sx) {
 		defer func() {
 			if r := recover(); r != nil {
